@@ -201,6 +201,8 @@ pub struct Sim {
     /// nodes whose gradient slot holds a user-stored array of another shape (a pass must not add to it)
     pub user_shaped: BTreeSet<usize>,
     pub read_panics: std::cell::Cell<u32>,
+    /// buffers that a seed taken from a live handle may have leaked into stored gradients
+    pub seed_pinned_aliases: BTreeSet<usize>,
 }
 
 pub const EXACT_BOUND_F64: f64 = 1125899906842624.0; // 2^50
@@ -299,6 +301,7 @@ impl Sim {
             train_eval_pending: false,
             user_shaped: BTreeSet::new(),
             read_panics: std::cell::Cell::new(0),
+            seed_pinned_aliases: BTreeSet::new(),
         }
     }
 
@@ -1051,6 +1054,14 @@ impl Sim {
         let rdims = self.g.nodes[rn].dims.clone();
         let ne = numel(&rdims);
         let seed_vals: Vec<f64> = match seed {
+            Seed::FromSlot(s) => {
+                // only arrays without a graph of their own: a seed that carries a graph would make the stored
+                // gradients keep that graph alive, which is the program's doing, not the library's
+                match self.node_of(*s) {
+                    Some(n) if self.g.nodes[n].dims == rdims && !self.g.nodes[n].has_graph => self.g.nodes[n].vals.clone(),
+                    _ => return StepOut::Skipped("seed slot empty, of another shape, or a result with a graph"),
+                }
+            }
             Seed::None | Seed::Ones => vec![1.0; ne],
             Seed::Vals(v) => {
                 if v.len() != ne || !v.iter().all(|x| x.is_finite()) {
@@ -1151,11 +1162,21 @@ impl Sim {
         }
         let log_start = self.sh.log.borrow().len();
         let seed_arr: Option<Array> = match seed {
+            Seed::FromSlot(s) => {
+                // the stored gradients may now share this array's buffer (and node): ownership probes of it
+                // are no longer judged
+                let n = self.node_of(*s).unwrap();
+                let al = self.g.nodes[n].alias;
+                self.seed_pinned_aliases.insert(al);
+                self.fault("F2_seed_is_a_clone_of_a_live_array");
+                let slots = self.sh.slots.borrow();
+                Some(slots[*s].as_ref().unwrap().clone().untracked())
+            }
             Seed::None => None,
             Seed::Ones => Some(mk(&rdims, &vec![1.0; ne])),
             Seed::Vals(v) => Some(mk(&rdims, v)),
         };
-        if let Some(s) = &seed_arr {
+        if let (Some(s), false) = (&seed_arr, matches!(seed, Seed::FromSlot(_))) {
             let snap = Obs::of(s);
             self.held.push(Held { arr: s.clone(), snap, what: "seed", node: None, tag: 0 });
         }
@@ -1668,7 +1689,8 @@ impl Sim {
             *it != u64::MAX && self.g.nodes[*n].alias == self.g.nodes[l].alias && (self.model_output_iter == Some(*it) || self.held.iter().any(|h| h.tag == *it && h.what == "kept model output"))
         });
         let protected_alias = self.protected.iter().any(|n| self.g.nodes[*n].alias == self.g.nodes[l].alias);
-        if self.protected.contains(&l) || protected_alias || model_pinned {
+        let seed_pinned = self.seed_pinned_aliases.contains(&self.g.nodes[l].alias);
+        if self.protected.contains(&l) || protected_alias || model_pinned || seed_pinned {
             // a live model parameter seen through an observer's handle: the layer holds it too
             match res {
                 Ok(_) => self.cnt.retire_control_ok += 1,
